@@ -249,11 +249,12 @@ func C14() *sim.Check {
 
 	return &sim.Check{
 		Prop: "C14", Harness: "h_pfb", Level: "exploration",
-		Rule:     "streams: a segment list (types 1/2, lengths 0..300, optional end marker, trailing garbage, or one anomaly: short binary/text segment, bad header, partial header) is drawn from the tape together with an underlying delivery schedule and a caller buffer-size sequence; every Read of pfb.Decode is checked against a 30-line reference model. A case is non-trivial when the stream has a non-empty binary segment and at least one odd caller buffer size was used; distinct = distinct (stream bytes, schedule, buffer sequence) hash. headers: all 65536 first-two-byte values x {one read, 1-byte reads}, each counted once.",
-		Assume:   []string{"the reference model in harness/h_pfb.go is the specification of PFB framing", "underlying readers never return (0, nil) for a non-empty buffer"},
-		RealStub: map[string]any{"real": []string{"pfb.Decode (unmodified /repo code)", "io.ReadFull"}, "stub": []string{"underlying reader (SimReader)", "caller (buffer-size sequence)"}},
-		Batches:  []*sim.Batch{headers, random},
-		Probes:   []string{"probe_zero_length_segment", "probe_marker_followed_by_garbage", "probe_binary_with_odd_buffer", "anomaly_1", "anomaly_2", "anomaly_3", "anomaly_4"},
+		Rule:        "streams: a segment list (types 1/2, lengths 0..300, optional end marker, trailing garbage, or one anomaly: short binary/text segment, bad header, partial header) is drawn from the tape together with an underlying delivery schedule and a caller buffer-size sequence; every Read of pfb.Decode is checked against a 30-line reference model. A case is non-trivial when the stream has a non-empty binary segment and at least one odd caller buffer size was used; distinct = distinct (stream bytes, schedule, buffer sequence) hash. headers: all 65536 first-two-byte values x {one read, 1-byte reads}, each counted once.",
+		Assume:      []string{"the reference model in harness/h_pfb.go is the specification of PFB framing", "underlying readers never return (0, nil) for a non-empty buffer"},
+		RealStub:    map[string]any{"real": []string{"pfb.Decode (unmodified /repo code)", "io.ReadFull"}, "stub": []string{"underlying reader (SimReader)", "caller (buffer-size sequence)"}},
+		Batches:     []*sim.Batch{headers, random},
+		SimTimeUnit: "Read calls: caller -> decoder and decoder -> simulated source", SimTimeCounters: []string{"src_reads", "decoder_reads"},
+		Probes: []string{"probe_zero_length_segment", "probe_marker_followed_by_garbage", "probe_binary_with_odd_buffer", "anomaly_1", "anomaly_2", "anomaly_3", "anomaly_4"},
 	}
 }
 
